@@ -1,115 +1,12 @@
 ---------------------------- MODULE ThreadsImplMC ----------------------------
-(***************************************************************************)
-(* C15, implementation-shaped: the steps one call of a synchronous client  *)
-(* really takes, one action per critical section of the code               *)
-(*   BaseModbusClient.execute: acquire the transaction lock, connect if    *)
-(*   there is no connection (check, then open), ModbusTransactionManager   *)
-(*   .execute: send, wait for the reply; when none comes the attempt       *)
-(*   fails, the connection is closed and - with retry_on_empty - the       *)
-(*   request is sent again after a back-off sleep (connect check again);   *)
-(*   finally release.                                                      *)
-(* The peer answers every request it receives on the connection it was     *)
-(* received on; a reply in flight on a connection that has been replaced   *)
-(* never arrives.  The environment may drop up to Drops transmissions.     *)
-(*                                                                         *)
-(* TDev names the ways in which implementations have been seen (or seeded) *)
-(* to get this wrong; TLC must reject each of them:                        *)
-(*   ConnectOutsideLock         connect() before the lock is taken (the    *)
-(*                              defect repaired in the tree)               *)
-(*   LockReleasedDuringBackoff  the lock is given up for the back-off sleep *)
-(*   LockWaitTimesOut           a caller that has queued "too long" goes on *)
-(*                              without the lock                           *)
-(*   CloseRecreatesLock         closing the connection after a failed      *)
-(*                              attempt replaces the lock object: the      *)
-(*                              holder keeps the old one, the others see a  *)
-(*                              free one                                    *)
-(***************************************************************************)
-EXTENDS Naturals, Sequences, FiniteSets, TLC
-
-CONSTANTS NT, K, Drops, TDev
-VARIABLES pc, lock, conn, rx, got, cnt, active, tries, drops, lost
-vars == <<pc, lock, conn, rx, got, cnt, active, tries, drops, lost>>
-Th == 1..NT
-Has(d) == d \in TDev
-
-Init == /\ pc = [t \in Th |-> "idle"] /\ lock = 0 /\ conn = 0 /\ rx = <<>>
-        /\ got = [t \in Th |-> <<>>] /\ cnt = [t \in Th |-> 0] /\ active = {}
-        /\ tries = [t \in Th |-> 1] /\ drops = Drops /\ lost = {}
-
-(* conn: 0 = no connection, n > 0 = the n-th connection of this client (an epoch) *)
-Go(t, to) == pc' = [pc EXCEPT ![t] = to]
-
-Acquire(t) ==
-  /\ pc[t] = (IF Has("ConnectOutsideLock") THEN "acq" ELSE "idle") /\ (pc[t] = "idle" => cnt[t] < K)
-  /\ \/ lock = 0 /\ lock' = t
-     \/ lock # 0 /\ lock # t /\ Has("LockWaitTimesOut") /\ lock' = lock          \* gives up waiting, carries on unlocked
-  /\ Go(t, IF Has("ConnectOutsideLock") THEN "send" ELSE "cchk")
-  /\ UNCHANGED <<conn, rx, got, cnt, active, tries, drops, lost>>
-Start(t) ==          \* (ConnectOutsideLock only) the call begins with the connection check
-  /\ Has("ConnectOutsideLock") /\ pc[t] = "idle" /\ cnt[t] < K
-  /\ Go(t, "cchk") /\ UNCHANGED <<lock, conn, rx, got, cnt, active, tries, drops, lost>>
-Check(t) ==
-  /\ pc[t] = "cchk"
-  /\ Go(t, IF conn = 0 THEN "copen" ELSE (IF Has("ConnectOutsideLock") /\ tries[t] = 1 /\ t \notin active THEN "acq" ELSE "send"))
-  /\ UNCHANGED <<lock, conn, rx, got, cnt, active, tries, drops, lost>>
-Open(t) ==
-  /\ pc[t] = "copen"
-  /\ conn' = (CHOOSE n \in 1..(2 * NT * K + 2) : \A m \in {conn} \cup {rx[i].ep : i \in 1..Len(rx)} : n > m)   \* a fresh connection
-  /\ Go(t, IF Has("ConnectOutsideLock") /\ lock # t THEN "acq" ELSE "send")
-  /\ UNCHANGED <<lock, rx, got, cnt, active, tries, drops, lost>>
-Send(t) ==
-  /\ pc[t] = "send" /\ conn # 0
-  /\ active' = active \cup {t}
-  /\ \/ rx' = Append(rx, [to |-> t, ep |-> conn]) /\ UNCHANGED <<drops, lost>>
-     \/ drops > 0 /\ drops' = drops - 1 /\ lost' = lost \cup {t} /\ UNCHANGED rx        \* this transmission is never answered
-  /\ Go(t, "recv") /\ UNCHANGED <<lock, conn, got, cnt, tries>>
-(* the reply at the head of the line arrives if it travels on the current connection, otherwise it is gone *)
-Vanish == /\ rx # <<>> /\ Head(rx).ep # conn /\ rx' = Tail(rx) /\ lost' = lost \cup {Head(rx).to}
-          /\ UNCHANGED <<pc, lock, conn, got, cnt, active, tries, drops>>
-Recv(t) ==
-  /\ pc[t] = "recv" /\ rx # <<>> /\ Head(rx).ep = conn
-  /\ got' = [got EXCEPT ![t] = Append(@, Head(rx).to)] /\ rx' = Tail(rx)
-  /\ active' = active \ {t}
-  /\ Go(t, "release") /\ UNCHANGED <<lock, conn, cnt, tries, drops, lost>>
-(* no reply comes for t (its transmission was dropped): the read returns empty; with retry_on_empty the request is sent again on  *)
-(* the same connection after the back-off sleep.  The transaction is still in progress: it owns the line until its last receive. *)
-TimeOut(t) ==
-  /\ pc[t] = "recv" /\ t \in lost /\ ~\E i \in 1..Len(rx) : rx[i].to = t /\ rx[i].ep = conn
-  /\ lost' = lost \ {t}
-  /\ IF tries[t] > 0
-     THEN /\ tries' = [tries EXCEPT ![t] = @ - 1]
-          /\ lock' = IF Has("LockReleasedDuringBackoff") /\ lock = t THEN 0 ELSE lock
-          /\ Go(t, IF Has("LockReleasedDuringBackoff") THEN "reacq" ELSE "cchk")
-          /\ UNCHANGED <<got, active>>
-     ELSE /\ got' = [got EXCEPT ![t] = Append(@, 0)] /\ active' = active \ {t}      \* an error object is returned
-          /\ Go(t, "release") /\ UNCHANGED <<tries, lock>>
-  /\ UNCHANGED <<conn, rx, cnt, drops>>
-(* the transport fails under t's attempt (OSError): the client closes the connection; a retry reconnects (still inside the call) *)
-Fail(t) ==
-  /\ pc[t] = "recv" /\ drops > 0 /\ tries[t] > 0 /\ conn # 0
-  /\ drops' = drops - 1
-  /\ conn' = 0
-  /\ lock' = IF Has("CloseRecreatesLock") THEN 0 ELSE lock
-  /\ tries' = [tries EXCEPT ![t] = @ - 1]
-  /\ Go(t, "cchk")
-  /\ UNCHANGED <<rx, got, cnt, active, lost>>
-Reacquire(t) == /\ pc[t] = "reacq" /\ lock = 0 /\ lock' = t /\ Go(t, "cchk")
-                /\ UNCHANGED <<conn, rx, got, cnt, active, tries, drops, lost>>
-Release(t) ==
-  /\ pc[t] = "release"
-  /\ lock' = IF lock = t THEN 0 ELSE lock
-  /\ cnt' = [cnt EXCEPT ![t] = @ + 1] /\ tries' = [tries EXCEPT ![t] = 1]
-  /\ Go(t, "idle") /\ UNCHANGED <<conn, rx, got, active, drops, lost>>
-
-Done == \A t \in Th : cnt[t] = K /\ pc[t] = "idle"
-Next == \/ \E t \in Th : Acquire(t) \/ Start(t) \/ Check(t) \/ Open(t) \/ Send(t) \/ Recv(t) \/ TimeOut(t) \/ Fail(t) \/ Reacquire(t) \/ Release(t)
-        \/ Vanish
-        \/ (Done /\ UNCHANGED vars)
-Spec == Init /\ [][Next]_vars /\ WF_vars(Next)
-
-(* the statement of C15 *)
-Mutex == Cardinality(active) <= 1
-OwnReply == \A t \in Th : \A k \in 1..Len(got[t]) : got[t][k] = t         \* (0 = an error object; with Drops <= retries none occurs)
-NoLossNoDup == Done => \A t \in Th : Len(got[t]) = K
-Completes == <>Done
+(* Exhaustive exploration of ThreadsImpl: every interleaving of the caller threads' steps and of the environment's choices. *)
+EXTENDS ThreadsImpl, TLC
+VARIABLE st
+Init == st = InitSt
+Next == st' \in Steps(st) \/ (DoneSt(st) /\ UNCHANGED st)
+Spec == Init /\ [][Next]_st /\ WF_st(Next)
+Mutex == MutexSt(st)
+OwnReply == OwnReplySt(st)
+NoLossNoDup == NoLossSt(st)
+Completes == <>DoneSt(st)
 =============================================================================
